@@ -254,12 +254,23 @@ def retrieval_matcher(
     row_true, row_pred = np.asarray(row_true), np.asarray(row_pred)
     row_true_prob = np.zeros_like(row_true, dtype=np.float64)
     row_pred_prob = np.zeros_like(row_pred, dtype=np.float64)
+    # An item can only be retrieved once: when a row predicts the same id more
+    # than once, the occurrence with the highest probability is the match (so
+    # the result does not depend on the order of the duplicates) and the other
+    # occurrences are predictions that match nothing.
+    matched_at = {}
     for i, (prob, pred) in enumerate(zip(row_prob, row_pred)):
       ixs = np.where(row_true == pred)[0]
       assert len(ixs) < 2
       if ixs.size > 0:
+        ix = ixs[0]
+        if ix in matched_at:
+          if prob <= row_true_prob[ix]:
+            continue
+          row_pred_prob[matched_at[ix]] = 0
+        matched_at[ix] = i
         row_pred_prob[i] = prob
-        row_true_prob[ixs[0]] = prob
+        row_true_prob[ix] = prob
     matched_true_prob.append(row_true_prob)
     matched_pred_prob.append(row_pred_prob)
     matched_y_prob.append(row_prob)
